@@ -155,7 +155,18 @@ def gen_case(rng: random.Random, tier: str) -> dict:
             rows = sorted(rng.sample(range(n), rng.randint(1, n)))
         follow.append({"kind": kind, "rows": rows, "plain_col": plain == "both" or (plain == "fit" and rng.random() < 0.5) or (plain == "follow" and rng.random() < 0.7)})
     used = sorted({kinds[v] for t in terms for v in t})
-    return {"frame": frame, "formula": f, "output": rng.choice(["pandas", "numpy", "sparse"]), "follow": follow,
+    # the quoted columns may be capitalised or non-ASCII (aliases and state keys must not depend on the spelling's character class)
+    style = rng.choice(["lower", "lower", "capital", "unicode"])
+    plain_name = "body_mass"
+    if style != "lower":
+        ren = {"capital": {"body mass": "Body Mass", "body+mass": "Body+Mass", "body_mass": "Body_Mass"},
+               "unicode": {"body mass": "Größe cm", "body+mass": "Größe+cm", "body_mass": "Größe_cm"}}[style]
+        for c in frame["cols"]:
+            c[0] = ren.get(c[0], c[0])
+        for old_, new_ in ren.items():
+            f = f.replace(old_, new_)
+        plain_name = ren["body_mass"]
+    return {"plain_name": plain_name, "frame": frame, "formula": f, "output": rng.choice(["pandas", "numpy", "sparse"]), "follow": follow,
             "sig": [used, sorted(len(t) for t in terms), f.count("|") + 2 * f.count("~"), plain]}
 
 
@@ -202,12 +213,13 @@ def judge(case) -> Outcome:
                 for _nm, c in subspec["cols"]:
                     if c["kind"] == "cat":
                         c["categories"] = list(reversed(c["categories"]))
-            has_plain = any(nm == "body_mass" for nm, _c in subspec["cols"])
+            plain_name = case.get("plain_name", "body_mass")
+            has_plain = any(nm == plain_name for nm, _c in subspec["cols"])
             if fu.get("plain_col", has_plain) != has_plain:  # an unrelated column appears in / disappears from the follow-up data
                 if has_plain:
-                    subspec["cols"] = [c for c in subspec["cols"] if c[0] != "body_mass"]
+                    subspec["cols"] = [c for c in subspec["cols"] if c[0] != plain_name]
                 else:
-                    subspec["cols"].append(["body_mass", {"kind": "num", "dtype": "float64", "values": [float(i) for i in range(len(rows))]}])
+                    subspec["cols"].append([plain_name, {"kind": "num", "dtype": "float64", "values": [float(i) for i in range(len(rows))]}])
             sub = make_frame(subspec)
             sp = spec
             try:
